@@ -147,7 +147,10 @@ end RngInt
 /-- `.h1/.h2/.h3` = the same operation after randombytes_close / randombytes_stir / both on the installed source:
     by the property the answer depends only on the bytes the installed source supplies -/
 def baseOp (op : String) : String :=
-  if op.endsWith ".h1" || op.endsWith ".h2" || op.endsWith ".h3" then (op.dropEnd 3).toString else op
+  -- `.h<k>`, k = 1..15: bits 1 close, 2 stir, 4 another source (whose close hook reports failure) installed, used and closed before, 8 the scripted source has hooks
+  match (op.splitOn ".h").reverse with
+  | k :: rest@(_ :: _) => if k.length ≥ 1 ∧ k.length ≤ 2 ∧ k.all Char.isDigit then ".h".intercalate rest.reverse else op
+  | _ => op
 
 def handle (op0 : String) (args : List String) : Option String :=
   let op := baseOp op0
